@@ -65,8 +65,7 @@ TRANSLATORS = [
     ("json_util_tr.py", "file_builder/json_util.py", "JsonUtilGen.v"),
     ("locks_tr.py", "file_builder", "Locks.v"),
     ("edges_tr.py", "file_builder", "Edges.v"),
-    ("decisions_tr.py", "file_builder", "Decisions.v"),
-    ("sites_tr.py", "file_builder", "Sites.v"),
+    ("skeleton_tr.py", "file_builder", "Decisions.v"),     # also writes Sites.v and Order.v
 ]
 
 
@@ -79,6 +78,36 @@ def run_translators():
             continue
         rc, txt = sh([PY, sp, os.path.join(REPO, src), os.path.join(COQ, "Gen", out)], 120)
         res[out] = (rc == 0, txt.strip())
+        if script == "skeleton_tr.py":
+            res["Sites.v"] = res[out]
+            res["Order.v"] = res[out]
+    return res
+
+
+def skeleton_check(workdir, decisions=(), sites=False, order=False):
+    """T1b/T1c/T1f: compare the generated control skeleton with the baseline the model was aligned
+    with (Model/Skeleton.v). -> dict with lists of mismatching functions / sites, order flag."""
+    from .codec import coq_str
+    txt = ("From Coq Require Import List String. Import ListNotations. Open Scope string_scope.\n"
+           "From FB.Model Require Import Skeleton.\n"
+           "Definition nl := String (Ascii.ascii_of_nat 10) \"\".\n"
+           "Eval vm_compute in (String.concat nl (decision_mismatches [%s])).\n"
+           "Eval vm_compute in (String.concat nl (map (fun s => match s with (f, p, _, _) => f ++ \" \" ++ p end) site_mismatches)).\n"
+           "Eval vm_compute in order_ok.\n" % "; ".join(coq_str(d) for d in decisions))
+    rc, out = coq_eval(workdir, "Skel", txt, timeout=300)
+    if rc != 0:
+        return {"error": out[-800:]}
+    parts = re.findall(r'=\s*"(.*?)"\s*:\s*string', out, re.S)
+    ok = re.search(r"=\s*(true|false)\s*:\s*bool", out)
+    res = {"decisions": [x for x in (parts[0].split("\n") if parts else []) if x],
+           "sites": [x for x in (parts[1].split("\n") if len(parts) > 1 else []) if x],
+           "order_ok": bool(ok and ok.group(1) == "true")}
+    if not decisions:
+        res["decisions"] = []
+    if not sites:
+        res["sites"] = []
+    if not order:
+        res["order_ok"] = True
     return res
 
 
